@@ -134,6 +134,11 @@ def main(argv=None) -> int:
     out["samples"] = samples
     out["violation_cases"] = viol_cases
     out["not_run"] = not_run
+    try:
+        import porepy
+        out["porepy_path"] = str(Path(porepy.__file__).parent)
+    except Exception:
+        out["porepy_path"] = "?"
     Path(a.out).write_text(json.dumps(to_jsonable(out)))
     return 0
 
